@@ -132,14 +132,14 @@ func ruleS3(c *Ctx) {
 	okM := false
 	stmtLists(fd.Body, func(list []ast.Stmt) {
 		for i, s := range list {
-			if !strings.HasSuffix(c.src(s), ".Method.Extend(i)") {
+			if !patEq(c.src(s), "@p.Method.Extend(@i)") {
 				continue
 			}
 			rest := ""
 			for _, t := range list[i+1:] {
 				rest += c.src(t) + ";"
 			}
-			if strings.HasPrefix(rest, "if pl.Method.Empty() { goto errEmptyTok };pl.MethodNo = GetMethodNo(pl.Method.Get(buf));") {
+			if patIn(rest, "if @p.Method.Empty() { goto @l };@p.MethodNo = GetMethodNo(@p.Method.Get(@b));") {
 				okM = true
 			}
 		}
